@@ -32,6 +32,17 @@ THEOREMS = [
     "Verif.C13.coefficient_chain_ewlc_distance",
     "Verif.C13.inverse_derivative_rule",
     "Verif.C13.inverse_jacobian_rule",
+    "Verif.C13.composite_jacobian",
+    "Verif.C13.composite_jacobian_unfold",
+    "Verif.C13.composite_is_sum_deriv",
+    "Verif.C13.offset_jacobian",
+    "Verif.C13.offset_jacobian_unfold",
+    "Verif.C13.offset_chain_rule",
+    "Verif.C13.localize_sensitivities_spec",
+    "Verif.C13.fit_jacobian_assembly",
+    "Verif.C13.fit_row_unfold",
+    "Verif.C13.shared_parameter_chain_rule",
+    "Verif.C13.F9_witness",
 ]
 for _ns, _vars in (("OF", "Lp Lc St kT d"), ("WD", "Lp Lc kT f"), ("EF", "Lp Lc St kT d"), ("ED", "Lp Lc St kT f")):
     THEOREMS += [f"Verif.C13.{_ns}.row_{v}" for v in _vars.split()]
